@@ -302,7 +302,7 @@ def judgeOut (st : St) (obs : List String) (l : String) : Except Verdict St := d
     if mdlHints != recvd.map (·.2) then .error (.mismatch s!"size hints: model {mdlHints} observed {recvd.map (·.2)}")
     let mut st := st
     -- a hand-made header whose dimension list is not the sorted list of its tag keys (no in-tree producer since fix
-    -- a050cea; outside `Item.WF`): judged by the characterisation echoIdentityUpToDims above, not a deviation
+    -- 6ba92e9; outside `Item.WF`): judged by the characterisation echoIdentityUpToDims above, not a deviation
     if !echoIdentity sent rd then st := addBr st "synthetic-header-dims-rederived"
     if ka == "ka=1" then st := addBr st "keepalive-crossed"
     if sent.isEmpty then st := addBr st "session-empty"
@@ -320,7 +320,7 @@ def judgeTaskAfter (st : St) (before : List Data) (toks : List String) (l : Stri
   let some recvd := toks.mapM parseOut | .error (.badop l)
   let rd := recvd.map (·.1)
   -- whatever a real task feeds the UDF node must come back unchanged: no allowance for re-derived dimensions (since fix
-  -- a050cea no node builds a batch header whose dimension list is not the sorted list of its tag keys)
+  -- 6ba92e9 no node builds a batch header whose dimension list is not the sorted list of its tag keys)
   if !echoIdentity before rd then
     let i := firstDiff before rd
     .error (.specfail "echo-identity" s!"task: {before.length} data messages entered the UDF node, {rd.length} left it; first difference at index {i}: {toks.getD i "nothing"}")
